@@ -95,7 +95,7 @@ DoneValidating(const int64_t validationPos, const int64_t dbSlotLimit, const int
 class LoadingFlags
 {
 public:
-    LoadingFlags(): state(0), anchored(0), mapped(0), finalized(0), freed(0) {}
+    LoadingFlags(): state(0), anchored(0), mapped(0), finalized(0), freed(0), ours(0) {}
 
     /* for LoadingEntry */
     uint8_t state:3;  ///< current entry state (one of the LoadingEntry::State values)
@@ -105,6 +105,7 @@ public:
     uint8_t mapped:1;  ///< whether the slot was added to a mapped entry
     uint8_t finalized:1;  ///< whether finalizeOrThrow() has scanned the slot
     uint8_t freed:1;  ///< whether the slot was given to the map as free space
+    uint8_t ours:1;  ///< finalizeOrThrow() mark: the slot was loaded for the entry being finalized
 };
 
 /// smart StoreEntry-level info pointer (hides anti-padding LoadingParts arrays)
@@ -151,6 +152,10 @@ public:
     /* LoadingFlags::freed */
     bool freed() const { return flags.freed; }
     void freed(const bool beFreed) { flags.freed = beFreed; }
+
+    /* LoadingFlags::ours */
+    bool ours() const { return flags.ours; }
+    void ours(const bool beOurs) { flags.ours = beOurs; }
 
     bool used() const { return freed() || mapped() || more != -1; }
 
@@ -602,13 +607,25 @@ Rock::Rebuild::finalizeOrThrow(const sfileno fileNo, LoadingEntry &le)
     // walk all map-linked slots, starting from inode, and mark each
     Ipc::StoreMapAnchor &anchor = sd->map->writeableEntry(fileNo);
     Must(le.size > 0); // paranoid
+
+    // Mark the slots loaded for this entry (they are linked via LoadingSlot::more)
+    // so that the walk below, which follows the _stored_ next-slot links, cannot
+    // wander into a slot that belongs to another, not yet finalized entry.
+    for (SlotId ourSlotId = anchor.start; ourSlotId >= 0;) {
+        LoadingSlot ourSlot = loadingSlot(ourSlotId);
+        ourSlot.ours(true);
+        ourSlotId = ourSlot.more;
+    }
+
     uint64_t mappedSize = 0;
     SlotId slotId = anchor.start;
     while (slotId >= 0 && mappedSize < le.size) {
         LoadingSlot slot = loadingSlot(slotId); // throws if we have not loaded that slot
         Must(!slot.finalized()); // no loops or stealing from other entries
+        Must(slot.ours()); // no stealing from entries that are still loading
         Must(slot.mapped()); // all our slots should be in the sd->map
         Must(!slot.freed()); // all our slots should still be present
+        slot.ours(false);
         slot.finalized(true);
 
         Ipc::StoreMapSlice &mapSlice = sd->map->writeableSlice(fileNo, slotId);
